@@ -178,6 +178,25 @@ CHECKS["C19"] = dict(
           "failing print in -i. Not covered: CLI commands other than exit, --debug/--color output, a tty."),
     technique="Lean 4 proof of the decision logic + process-level three-way differential test")
 
+CHECKS["C12"] = dict(
+    category="proof",
+    text=("Lean 4 model of the BLOC parser (token stream of the C13 scanner -> parse trees keeping the `enc` flag; nine precedence "
+          "levels, literals incl. std::stoull/strtod, the whole statement grammar) and a byte-exact model of every unparse function; "
+          "theorems (BlocV.Proofs.C12): parse o unparse = norm on every well-formed tree of the operator core (all 25 operators, "
+          "variables, literals, parentheses) at every precedence level and for assignment statements (also chained), literal and "
+          "integer round trips for all strings the parser can build / all non-negative integers, unparse o norm = unparse and "
+          "translate o norm = translate for all node kinds (fixpoint, behaviour preserved); the full property is FALSE on this tree: "
+          "%.16g is not injective and three further regions (wrapped integer literals, fused print items, DO without keyword) are "
+          "witnessed by proved negations and recorded as known findings. Tied to /repo by comparing, for generated programs over "
+          "the full grammar (every operator pair x parenthesis shape, all literal forms, chained statements, nested blocks, typed "
+          "functions, exception clauses), Executable::unparse with the model byte for byte, re-parsing the text in a twin context, "
+          "running both and comparing results, output, dumps and the second unparse."),
+    design_ref="DESIGN.md §6 C12, notes/NOTES-C12.md",
+    note=("Trusted: Lean kernel; theorems are on token lists — that unparse text scans to those tokens is evaluated through the C13 "
+          "lexer model on every case, not proved; type/symbol checks of the C++ parser are outside the model (domain = accepted "
+          "programs); calls/members/items and non-assignment statements are covered by the correspondence only."),
+    technique="Lean 4 proof (recursive-descent parser inverts unparse on the operator core) + unparse/reparse/rerun correspondence")
+
 NOT_YET = {}
 
 ALL = ["C%02d" % i for i in range(1, 20)]
